@@ -183,6 +183,7 @@ def run(rep):
     rule_r1(rep)
     rule_isa(rep)
     rule_kill_discipline(rep)
+    rule_deletion_flags(rep)
 
 
 # ---- R2: ISA tables that asm DCE / move elimination / the propagators' reset-on-def rely on ---------------------------
@@ -242,6 +243,8 @@ def covers(node, dest, helpers):
     if k == "Match":
         return all(covers(a["body"], dest, helpers) for a in node["arms"])
     if k == "Assign":
+        if tab.show(node["left"]) == "*op" and tab.show(node["right"]).endswith("VirtualOp::NOOP"):
+            return True  # the instruction is replaced by a NOOP: nothing defines `dest` on this path any more
         return node["left"].get("path") == "retain" and node["right"].get("v") is False
     if k == "Call":
         nm = tab.last_seg(node["func"].get("path", ""))
@@ -341,3 +344,73 @@ def rule_kill_discipline(rep):
                        "a recorded definition version `X.ver` must be compared with get_def_version(.., &X.reg) of the same X; comparing it "
                        "with another register's version validates a fact about a register that has since been overwritten")
     rep.floor("R3-version-compared-with-its-register", 3, n_cmp)
+
+
+OPT_FILES = ["misc.rs", "reachability.rs", "constant_propagate.rs", "const_indexed_aggregates.rs", "mod.rs", "verify.rs"]
+REVIEWED_DELETERS = {
+    "simplify_cfg": "removes only instructions that no path from the entry reaches: nothing executes them, so no flag write is lost",
+}
+
+
+def rule_deletion_flags(rep):
+    """R4: every ALU instruction (MOVE and NOOP included) rewrites $of and $err. A pass may overwrite an instruction with NOOP
+    (same effect on the flags) freely, but a pass that *deletes* instructions from `self.ops` changes what a later direct read of
+    $of/$err observes unless it accounts for the constant registers the deleted instruction defines (`def_const_registers`, as
+    dce and remove_redundant_ops do) or only deletes unreachable code (reviewed)."""
+    OPT = "sway-core/src/asm_generation/fuel/optimizations/"
+    n = 0
+    import os
+    from lib.common import REPO
+    for fn_ in OPT_FILES:
+        rel = OPT + fn_
+        if not os.path.exists(os.path.join(REPO, rel)):
+            continue
+        t = tab.tree(rel)
+        for f in [x for x in tab.walk(t) if x.get("k") == "Fn" and x.get("body")]:
+            if any(a for a in f.get("attrs", []) if "test" in str(a)):
+                continue
+            body = f["body"]
+            dels = []
+            for x in tab.walk(body):
+                if x.get("k") == "MethodCall" and x["method"] in ("remove", "retain", "retain_mut", "drain", "truncate", "pop", "swap_remove", "dedup", "dedup_by", "dedup_by_key", "clear") \
+                        and tab.show(x["recv"]) in ("self.ops", "ops"):
+                    dels.append((x["l"], f"self.ops.{x['method']}(..)"))
+                if x.get("k") == "Assign" and tab.show(x["left"]) == "self.ops":
+                    dels.append((x["l"], "self.ops = .."))
+                if x.get("k") == "Call" and tab.show(x["func"]).endswith("mem::swap") and any(tab.show(a_) == "&mut self.ops" for a_ in x["args"]):
+                    dels.append((x["l"], "mem::swap(&mut self.ops, ..)"))
+            if not dels:
+                continue
+            # rebuilding self.ops one-to-one (map without filter) is not a deletion
+            txt = tab.show(body)
+            filters = bool(re.search(r"\.(filter|filter_map|skip|take|skip_while|take_while|flat_map)\(", txt)) or any("remove" in d or "retain" in d or "drain" in d or "truncate" in d or "pop" in d or "dedup" in d or "clear" in d for _, d in dels) \
+                or any(i_.get("k") == "If" and any(m_.get("k") == "MethodCall" and m_["method"] == "push" for m_ in tab.walk(i_)) for i_ in tab.walk(body))
+            # `retain(|op| { .. flag })` whose flag is a `let flag = true` that is never assigned cannot delete anything
+            for x in tab.walk(body):
+                if x.get("k") == "MethodCall" and x["method"] in ("retain", "retain_mut") and x["args"] and x["args"][0].get("k") == "Closure":
+                    cb = x["args"][0]["body"]
+                    last = cb["stmts"][-1] if cb.get("k") == "Block" and cb["stmts"] else cb
+                    if last.get("k") == "Path":
+                        v = last["path"]
+                        inits = [tab.show(i_) for l_, names_, _, i_ in tab.lets(cb) if names_ == [v]]
+                        assigned = any(a_.get("k") == "Assign" and tab.show(a_["left"]) == v for a_ in tab.walk(cb))
+                        if [i_.lower() for i_ in inits] == ["true"] and not assigned:
+                            dels = [d for d in dels if d[0] != x["l"]]
+            if not dels:
+                continue
+            filters = bool(re.search(r"\.(filter|filter_map|skip|take|skip_while|take_while|flat_map)\(", txt)) or any("remove" in d or "retain" in d or "drain" in d or "truncate" in d or "pop" in d or "dedup" in d or "clear" in d for _, d in dels) \
+                or any(i_.get("k") == "If" and any(m_.get("k") == "MethodCall" and m_["method"] == "push" for m_ in tab.walk(i_)) for i_ in tab.walk(body))
+            if not filters:
+                continue
+            n += 1
+            aware = any(x.get("k") == "MethodCall" and x["method"] == "def_const_registers" for x in tab.walk(body))
+            name = f["name"]
+            if name in REVIEWED_DELETERS and not aware:
+                rep.ob("R4-deletion-accounts-for-flag-registers", name, True, rel, f["l"], "reviewed: " + REVIEWED_DELETERS[name])
+                continue
+            rep.ob("R4-deletion-accounts-for-flag-registers", name, aware, rel, dels[0][0],
+                   f"{name} deletes instructions from the instruction list ({', '.join(d for _, d in dels)}) without consulting def_const_registers(): every ALU "
+                   "instruction, MOVE and NOOP included, resets $of/$err, so deleting one (instead of overwriting it with NOOP) changes what a following "
+                   "direct read of $of/$err sees")
+    rep.floor("R4-deletion-accounts-for-flag-registers", 3, n)  # dce, simplify_cfg, remove_redundant_ops
+
